@@ -282,10 +282,10 @@ def check(ctx: Ctx) -> list[RuleResult]:
     def find_atom(pred) -> "str | None":
         return next((a for a in tab.atoms if pred(a)), None)
 
-    ne = find_atom(lambda a: a.replace(" ", "") in ("pkt._hdr!=self._sent_cmd.rx_header", "self._sent_cmd.rx_header!=pkt._hdr"))
+    ne = None  # atoms are canonical (positive) since predeval folds `!=` into the negation of `==`
     eq = find_atom(lambda a: a.replace(" ", "") in ("pkt._hdr==self._sent_cmd.rx_header", "self._sent_cmd.rx_header==pkt._hdr"))
-    pre = find_atom(lambda a: "[:-2]" in a and "rx_header" in a and "pkt._hdr" in a and ("==" in a or "!=" in a))
-    pre_neg = pre is not None and "!=" in pre
+    pre = find_atom(lambda a: "[:-2]" in a and "rx_header" in a and "pkt._hdr" in a and "==" in a)
+    pre_neg = False
     echo = find_atom(lambda a: "tx_header" in a and "pkt._hdr" in a and "==" in a)
     if ne is None and eq is None:
         raise AnalysisError(f"WantRply.pkt_rcvd: no test of pkt._hdr against rx_header found (atoms: {tab.atoms})")
@@ -352,7 +352,7 @@ def check(ctx: Ctx) -> list[RuleResult]:
     r5.instances += 1
     r5.nontrivial += 1
     # rows in which the packet is *not* the echo (so the only way to a result is the early-reply branch)
-    not_echo = [(a, r) for a, r in rows_e if all(a[k] for k in tabe.atoms if "tx_header" in k and "!=" in k)]
+    not_echo = [(a, r) for a, r in rows_e if not any(a[k] for k in tabe.atoms if "tx_header" in k and "==" in k)]
     lost = [a for a, _r in not_echo if is_reply(a) and to_sender(a) and not early_reply(a)]
     wrong = [a for a, _r in not_echo if early_reply(a) and not (is_reply(a) and to_sender(a))]
     if wrong:
